@@ -123,7 +123,10 @@ void StatusPrinter::BuildEdgeStarted(const Edge* edge,
   if (edge->use_console() || printer_.is_smart_terminal())
     PrintStatus(edge, start_time_millis);
 
-  if (edge->use_console())
+  // A dry run executes nothing, so no command takes over the console: while
+  // it is locked only the most recent status line is kept, and the listing
+  // printed by -n would lose the other commands.
+  if (edge->use_console() && !config_.dry_run)
     printer_.SetConsoleLocked(true);
 }
 
